@@ -1,8 +1,414 @@
 /-
-Helper lemmas for C14 (StatRel).
+Helper lemmas for C14 (StatRel): the statistics as weighted sums over flat positions (`sr_fsum`: all positions,
+`sr_isum`: all but the first and last), and how these sums behave under `setMono`, `swapPops`, `scaleBy`, `normalize`.
 -/
 import SfsModel.Model.Stat
 import SfsModel.Spec.Stat
+import SfsModel.Lemmas.View
+import SfsModel.Lemmas.Index
+import SfsModel.Lemmas.SumBox
+import Mathlib.Algebra.BigOperators.Group.Finset.Basic
+import Mathlib.Algebra.BigOperators.Group.List.Basic
+import Mathlib.Algebra.BigOperators.Ring.List
+import Mathlib.Algebra.Field.Basic
+import Mathlib.Algebra.CharZero.Defs
+import Mathlib.Tactic.Ring
+import Mathlib.Tactic.FieldSimp
+import Mathlib.Tactic.Linarith
 namespace Sfs
+open Sfs.Spec
+
+/-! ### lists: `interior`, `withIdx` -/
+
+theorem sr_interior_map {β γ : Type} (f : β → γ) (l : List β) : interior (l.map f) = (interior l).map f := by
+  simp [interior, List.map_take]
+
+theorem sr_interior_range (n : Nat) : interior (List.range n) = List.range' 1 (n - 2) := by
+  apply List.ext_getElem?
+  intro i
+  simp only [interior, List.length_range, List.getElem?_drop, List.getElem?_take]
+  grind
+
+theorem sr_self_eq_map_range {α : Type} [Zero α] (l : List α) :
+    l = (List.range l.length).map (fun k => l.getD k 0) := by
+  apply List.ext_getElem?
+  intro i
+  simp only [List.getElem?_map, List.getD_eq_getElem?_getD]
+  by_cases h : i < l.length
+  · simp [h]
+  · simp [h]
+
+theorem sr_withIdx_eq {α : Type} [Zero α] (l : List α) :
+    withIdx l = (List.range l.length).map (fun k => (k, l.getD k 0)) := by
+  apply List.ext_getElem?
+  intro i
+  simp only [withIdx, List.getElem?_map, List.getD_eq_getElem?_getD]
+  by_cases h : i < l.length
+  · simp [h, List.zip_eq_zipWith]
+  · simp [h, List.zip_eq_zipWith]
+
+theorem sr_interior_withIdx {α : Type} [Zero α] (l : List α) :
+    interior (withIdx l) = (List.range' 1 (l.length - 2)).map (fun k => (k, l.getD k 0)) := by
+  rw [sr_withIdx_eq, sr_interior_map, sr_interior_range]
+
+theorem sr_interior_eq {α : Type} [Zero α] (l : List α) :
+    interior l = (List.range' 1 (l.length - 2)).map (fun k => l.getD k 0) := by
+  conv_lhs => rw [sr_self_eq_map_range l]
+  rw [sr_interior_map, sr_interior_range]
+
+/-! ### weighted sums over flat positions -/
+
+section
+variable {α : Type} [Field α]
+
+/-- `Σ_k x_k · W k` over all positions -/
+def sr_fsum (x : List α) (W : Nat → α) : α := ((List.range x.length).map (fun k => x.getD k 0 * W k)).sum
+
+/-- `Σ_k x_k · W k` over all positions but the first and the last -/
+def sr_isum (x : List α) (W : Nat → α) : α := ((List.range' 1 (x.length - 2)).map (fun k => x.getD k 0 * W k)).sum
+
+theorem sr_isum_congr (x y : List α) (W V : Nat → α) (hl : x.length = y.length)
+    (h : ∀ k, 1 ≤ k → k + 1 < x.length → x.getD k 0 * W k = y.getD k 0 * V k) : sr_isum x W = sr_isum y V := by
+  unfold sr_isum
+  rw [← hl]
+  congr 1
+  apply List.map_congr_left
+  intro k hk
+  rw [List.mem_range'_1] at hk
+  exact h k hk.1 (by omega)
+
+theorem sr_fsum_congr (x y : List α) (W V : Nat → α) (hl : x.length = y.length)
+    (h : ∀ k, k < x.length → x.getD k 0 * W k = y.getD k 0 * V k) : sr_fsum x W = sr_fsum y V := by
+  unfold sr_fsum
+  rw [← hl]
+  congr 1
+  apply List.map_congr_left
+  intro k hk
+  exact h k (List.mem_range.mp hk)
+
+theorem sr_fsum_split (x : List α) (W : Nat → α) (h : 2 ≤ x.length) :
+    sr_fsum x W = x.getD 0 0 * W 0 + sr_isum x W + x.getD (x.length - 1) 0 * W (x.length - 1) := by
+  unfold sr_fsum sr_isum
+  obtain ⟨n, hn⟩ : ∃ n, x.length = n + 2 := ⟨x.length - 2, by omega⟩
+  rw [hn, List.range_eq_range', List.range'_succ, List.range'_concat]
+  simp [add_assoc, Nat.add_comm 1 n]
+
+theorem sr_getD_setMono (x : List α) (p q : α) (k : Nat) (h1 : 1 ≤ k) (h2 : k + 1 < x.length) :
+    ((x.set 0 p).set (x.length - 1) q).getD k 0 = x.getD k 0 := by
+  simp only [List.getD_eq_getElem?_getD, List.getElem?_set]
+  rw [if_neg (by omega), if_neg (by omega)]
+
+theorem sr_isum_setMono (x : List α) (p q : α) (W : Nat → α) :
+    sr_isum ((x.set 0 p).set (x.length - 1) q) W = sr_isum x W := by
+  apply sr_isum_congr _ _ _ _ (by simp)
+  intro k h1 h2
+  simp only [List.length_set] at h2
+  rw [sr_getD_setMono x p q k h1 h2]
+
+theorem sr_getD_map_mul (c : α) (x : List α) (k : Nat) : (x.map (fun v => c * v)).getD k 0 = c * x.getD k 0 := by
+  simp only [List.getD_eq_getElem?_getD, List.getElem?_map]
+  cases x[k]? <;> simp
+
+theorem sr_getD_map_div (s : α) (x : List α) (k : Nat) : (x.map (fun v => v / s)).getD k 0 = x.getD k 0 / s := by
+  simp only [List.getD_eq_getElem?_getD, List.getElem?_map]
+  cases x[k]? <;> simp
+
+theorem sr_isum_scale (c : α) (x : List α) (W : Nat → α) : sr_isum (x.map (fun v => c * v)) W = c * sr_isum x W := by
+  unfold sr_isum
+  rw [List.length_map, ← List.sum_map_mul_left]
+  congr 1
+  apply List.map_congr_left
+  intro k _
+  rw [sr_getD_map_mul, mul_assoc]
+
+theorem sr_fsum_scale (c : α) (x : List α) (W : Nat → α) : sr_fsum (x.map (fun v => c * v)) W = c * sr_fsum x W := by
+  unfold sr_fsum
+  rw [List.length_map, ← List.sum_map_mul_left]
+  congr 1
+  apply List.map_congr_left
+  intro k _
+  rw [sr_getD_map_mul, mul_assoc]
+
+theorem sr_isum_div (s : α) (x : List α) (W : Nat → α) : sr_isum (x.map (fun v => v / s)) W = sr_isum x W / s := by
+  unfold sr_isum
+  rw [List.length_map, div_eq_mul_inv, ← List.sum_map_mul_right]
+  congr 1
+  apply List.map_congr_left
+  intro k _
+  rw [sr_getD_map_div, div_eq_mul_inv]
+  ring
+
+theorem sr_fsum_div (s : α) (x : List α) (W : Nat → α) : sr_fsum (x.map (fun v => v / s)) W = sr_fsum x W / s := by
+  unfold sr_fsum
+  rw [List.length_map, div_eq_mul_inv, ← List.sum_map_mul_right]
+  congr 1
+  apply List.map_congr_left
+  intro k _
+  rw [sr_getD_map_div, div_eq_mul_inv]
+  ring
+
+theorem sr_sum_eq_fsum (x : List α) : x.sum = sr_fsum x (fun _ => 1) := by
+  unfold sr_fsum
+  conv_lhs => rw [sr_self_eq_map_range x]
+  simp
+
+/-! ### the statistics as weighted sums -/
+
+theorem sr_segregating_eq (x : List α) : segregating x = sr_isum x (fun _ => 1) := by
+  unfold segregating sr_isum
+  rw [sumList_eq_sum, sr_interior_eq]
+  simp
+
+theorem sr_thetaEstimate_eq (w : Nat → Nat → α) (x : List α) :
+    thetaEstimate w x = sr_isum x (fun k => w k (x.length - 1)) := by
+  unfold thetaEstimate sr_isum
+  simp only [sumList_eq_sum, sr_interior_withIdx, List.map_map]
+  congr 1
+  apply List.map_congr_left
+  intro k _
+  simp [mul_comm]
+
+theorem sr_freqSum_eq (w : List α → α) (a : Arr α) : freqSum w a = sr_fsum a.data (fun k => w (freqs a.shape k)) := by
+  unfold freqSum sr_fsum
+  simp only [sumList_eq_sum, sr_withIdx_eq, List.map_map]
+  rfl
+
+theorem sr_foldl_pair {β : Type} (f g : β → α) (l : List β) (z : α × α) :
+    l.foldl (fun acc p => (acc.1 + f p, acc.2 + g p)) z = (z.1 + (l.map f).sum, z.2 + (l.map g).sum) := by
+  induction l generalizing z with
+  | nil => simp
+  | cons b l ih => simp [List.foldl_cons, ih, add_assoc]
+
+/-- per-cell numerator weight of Hudson's Fst -/
+def sr_fstNum (shape : List Nat) (k : Nat) : α :=
+  let f := freqs (α := α) shape k
+  (nth f 0 - nth f 1) * (nth f 0 - nth f 1)
+    - nth f 0 * (1 - nth f 0) / (((shape.getD 0 0 : Nat) : α) - ((2 : Nat) : α))
+    - nth f 1 * (1 - nth f 1) / (((shape.getD 1 0 : Nat) : α) - ((2 : Nat) : α))
+
+/-- per-cell denominator weight of Hudson's Fst -/
+def sr_fstDen (shape : List Nat) (k : Nat) : α :=
+  let f := freqs (α := α) shape k
+  nth f 0 * (1 - nth f 1) + nth f 1 * (1 - nth f 0)
+
+theorem sr_fstParts_eq (a : Arr α) :
+    fstParts a = (sr_isum a.data (sr_fstNum a.shape), sr_isum a.data (sr_fstDen a.shape)) := by
+  refine (sr_foldl_pair (fun p : Nat × α => p.2 * sr_fstNum a.shape p.1)
+    (fun p : Nat × α => p.2 * sr_fstDen a.shape p.1) _ _).trans ?_
+  simp only [sr_interior_withIdx, List.map_map, zero_add]
+  rfl
+
+/-! ### the two monomorphic entries: one-population statistics -/
+
+theorem sr_segregating_setMono (x : List α) (p q : α) :
+    segregating ((x.set 0 p).set (x.length - 1) q) = segregating x := by
+  rw [sr_segregating_eq, sr_segregating_eq, sr_isum_setMono]
+
+theorem sr_thetaEstimate_setMono (w : Nat → Nat → α) (x : List α) (p q : α) :
+    thetaEstimate w ((x.set 0 p).set (x.length - 1) q) = thetaEstimate w x := by
+  rw [sr_thetaEstimate_eq, sr_thetaEstimate_eq, sr_isum_setMono]
+  simp only [List.length_set]
+
+theorem sr_dTajima_setMono (x : List α) (p q : α) :
+    dTajima ((x.set 0 p).set (x.length - 1) q) = dTajima x := by
+  simp only [dTajima, statPi, statTheta, sr_thetaEstimate_setMono, sr_segregating_setMono, List.length_set]
+
+theorem sr_dFuLi_setMono (x : List α) (p q : α) (h3 : 3 ≤ x.length) :
+    dFuLi ((x.set 0 p).set (x.length - 1) q) = dFuLi x := by
+  have h1 : thetaFuLi ((x.set 0 p).set (x.length - 1) q) = thetaFuLi x := by
+    simp only [thetaFuLi, List.getElem?_set]
+    rw [if_neg (by omega), if_neg (by omega)]
+  simp only [dFuLi, h1, statTheta, sr_thetaEstimate_setMono, sr_segregating_setMono, List.length_set]
+
+/-! ### normalisation -/
+
+theorem sr_normalize_eq (x : List α) : normalize x = x.map (fun v => v / sumList x) := rfl
+
+theorem sr_fstParts_normalized (a : Arr α) :
+    fstParts (normalized a) = ((fstParts a).1 / sumList a.data, (fstParts a).2 / sumList a.data) := by
+  rw [sr_fstParts_eq, sr_fstParts_eq]
+  simp only [normalized, sr_normalize_eq, sr_isum_div]
+
+theorem sr_freqSum_normalized (w : List α → α) (a : Arr α) :
+    freqSum w (normalized a) = freqSum w a / sumList a.data := by
+  rw [sr_freqSum_eq, sr_freqSum_eq]
+  simp only [normalized, sr_normalize_eq, sr_fsum_div]
+
+theorem sr_statFst_normalized (a : Arr α) (hs : sumList a.data ≠ 0) : statFst (normalized a) = statFst a := by
+  unfold statFst
+  rw [sr_fstParts_normalized]
+  exact div_div_div_cancel_right₀ hs _ _
+
+theorem sr_fstParts_setMono (a : Arr α) (p q : α) : fstParts (setMono a p q) = fstParts a := by
+  rw [sr_fstParts_eq, sr_fstParts_eq]
+  simp only [setMono, sr_isum_setMono]
+
+theorem sr_normalized_scaleBy (c : α) (hc : c ≠ 0) (a : Arr α) : normalized (scaleBy c a) = normalized a := by
+  simp only [normalized, scaleBy, sr_normalize_eq, sumList_eq_sum, List.map_map]
+  congr 1
+  apply List.map_congr_left
+  intro v _
+  have hsum : (List.map (fun x => c * x) a.data).sum = c * a.data.sum := by
+    induction a.data with
+    | nil => simp
+    | cons b l ih => simp [ih, mul_add]
+  simp only [Function.comp, hsum]
+  exact mul_div_mul_left _ _ hc
+
+/-! ### row-major enumeration, transposition -/
+
+theorem sr_div_mod (c i j : Nat) (hj : j < c) : (i * c + j) / c = i ∧ (i * c + j) % c = j := by
+  have hc : 0 < c := by omega
+  constructor
+  · rw [Nat.mul_comm, Nat.mul_add_div hc, Nat.div_eq_of_lt hj]; simp
+  · rw [Nat.mul_comm, Nat.mul_add_mod]; exact Nat.mod_eq_of_lt hj
+
+theorem sr_flatMap_range {β : Type} (f : Nat → Nat → β) (r c : Nat) :
+    (List.range r).flatMap (fun i => (List.range c).map (f i)) = (List.range (r * c)).map (fun k => f (k / c) (k % c)) := by
+  induction r with
+  | zero => simp
+  | succ r ih =>
+    rw [List.range_succ, List.flatMap_append, ih, Nat.succ_mul, List.range_add, List.map_append]
+    congr 1
+    simp only [List.flatMap_cons, List.flatMap_nil, List.append_nil, List.map_map]
+    apply List.map_congr_left
+    intro j hj
+    have hj' : j < c := List.mem_range.mp hj
+    have := sr_div_mod c r j hj'
+    simp only [Function.comp]
+    rw [this.1, this.2]
+
+theorem sr_swap_data (a : Arr α) (r c : Nat) (hs : a.shape = [r, c]) :
+    (swapPops a).data = (List.range (c * r)).map (fun k => a.data.getD ((k % r) * c + k / r) 0) := by
+  simp only [swapPops, hs, List.getD_cons_zero, List.getD_cons_succ]
+  exact sr_flatMap_range (fun j i => a.data.getD (i * c + j) 0) c r
+
+theorem sr_swap_shape (a : Arr α) (r c : Nat) (hs : a.shape = [r, c]) : (swapPops a).shape = [c, r] := by
+  simp [swapPops, hs]
+
+theorem sr_swap_length (a : Arr α) (r c : Nat) (hs : a.shape = [r, c]) : (swapPops a).data.length = c * r := by
+  rw [sr_swap_data a r c hs]; simp
+
+theorem sr_swap_getD (a : Arr α) (r c : Nat) (hs : a.shape = [r, c]) (i j : Nat) (hi : i < r) (hj : j < c) :
+    (swapPops a).data.getD (j * r + i) 0 = a.data.getD (i * c + j) 0 := by
+  have hlt : j * r + i < c * r := by
+    calc j * r + i < j * r + r := by omega
+      _ = (j + 1) * r := by rw [Nat.succ_mul]
+      _ ≤ c * r := Nat.mul_le_mul_right r hj
+  have hdm := sr_div_mod r j i hi
+  rw [sr_swap_data a r c hs]
+  simp only [List.getD_eq_getElem?_getD, List.getElem?_map, List.getElem?_range hlt, Option.map_some,
+    Option.getD_some, hdm.1, hdm.2]
+
+theorem sr_fsum_swap (a : Arr α) (r c : Nat) (hs : a.shape = [r, c]) (hl : a.data.length = r * c) (W W' : Nat → α)
+    (hW : ∀ i j, i < r → j < c → W' (j * r + i) = W (i * c + j)) :
+    sr_fsum (swapPops a).data W' = sr_fsum a.data W := by
+  unfold sr_fsum
+  rw [sr_swap_length a r c hs, hl, list_range_sum, list_range_sum, sum_range_mul, sum_range_mul, Finset.sum_comm]
+  apply Finset.sum_congr rfl
+  intro i hi
+  apply Finset.sum_congr rfl
+  intro j hj
+  rw [Finset.mem_range] at hi hj
+  rw [sr_swap_getD a r c hs i j hi hj, hW i j hi hj]
+
+theorem sr_last (r c : Nat) (hr : 1 ≤ r) (hc : 1 ≤ c) : r * c - 1 = (r - 1) * c + (c - 1) := by
+  obtain ⟨r, rfl⟩ : ∃ k, r = k + 1 := ⟨r - 1, by omega⟩
+  obtain ⟨c, rfl⟩ : ∃ k, c = k + 1 := ⟨c - 1, by omega⟩
+  simp only [Nat.add_sub_cancel, Nat.succ_mul, Nat.mul_succ]
+  omega
+
+theorem sr_isum_swap (a : Arr α) (r c : Nat) (hs : a.shape = [r, c]) (hl : a.data.length = r * c)
+    (hr : 2 ≤ r) (hc : 2 ≤ c) (W W' : Nat → α)
+    (hW : ∀ i j, i < r → j < c → W' (j * r + i) = W (i * c + j)) :
+    sr_isum (swapPops a).data W' = sr_isum a.data W := by
+  have h4 : 2 ≤ r * c := by
+    calc 2 ≤ 2 * 2 := by omega
+      _ ≤ r * c := Nat.mul_le_mul hr hc
+  have hl' := sr_swap_length a r c hs
+  have hf := sr_fsum_swap a r c hs hl W W' hW
+  rw [sr_fsum_split _ _ (by rw [hl']; rw [Nat.mul_comm]; exact h4), sr_fsum_split _ _ (by rw [hl]; exact h4)] at hf
+  have h0 : (swapPops a).data.getD 0 0 * W' 0 = a.data.getD 0 0 * W 0 := by
+    have h1 := sr_swap_getD a r c hs 0 0 (by omega) (by omega)
+    have h2 := hW 0 0 (by omega) (by omega)
+    simp only [Nat.zero_mul, Nat.add_zero] at h1 h2
+    rw [h1, h2]
+  have hlast : (swapPops a).data.getD ((swapPops a).data.length - 1) 0 * W' ((swapPops a).data.length - 1)
+      = a.data.getD (a.data.length - 1) 0 * W (a.data.length - 1) := by
+    rw [hl', hl, sr_last c r (by omega) (by omega), sr_last r c (by omega) (by omega),
+      sr_swap_getD a r c hs (r - 1) (c - 1) (by omega) (by omega), hW (r - 1) (c - 1) (by omega) (by omega)]
+  rw [h0, hlast] at hf
+  exact add_left_cancel (add_right_cancel hf)
+
+/-! ### frequencies of a two-population spectrum -/
+
+theorem sr_indexFromFlat2 (r c k : Nat) (hr : 0 < r) (hc : 0 < c) : indexFromFlat [r, c] k = [k / c, k % c] := by
+  simp only [indexFromFlat, unflatLoop, size, Nat.mul_one, Nat.mul_div_cancel_left c hr, Nat.div_self hc, Nat.div_one]
+
+theorem sr_freqs2 (r c k : Nat) (hr : 0 < r) (hc : 0 < c) :
+    freqs (α := α) [r, c] k = [((k / c : Nat) : α) / ((r - 1 : Nat) : α), ((k % c : Nat) : α) / ((c - 1 : Nat) : α)] := by
+  simp [freqs, sr_indexFromFlat2 r c k hr hc]
+
+theorem sr_freqs2_nth (r c i j : Nat) (hr : 0 < r) (hj : j < c) :
+    nth (freqs (α := α) [r, c] (i * c + j)) 0 = ((i : Nat) : α) / ((r - 1 : Nat) : α) ∧
+    nth (freqs (α := α) [r, c] (i * c + j)) 1 = ((j : Nat) : α) / ((c - 1 : Nat) : α) := by
+  have hdm := sr_div_mod c i j hj
+  rw [sr_freqs2 r c _ hr (by omega), hdm.1, hdm.2]
+  simp [nth]
+
+theorem sr_two (a : Arr α) (hl : a.data.length = size a.shape) (hv : ∀ v ∈ a.shape, 2 ≤ v) (h2 : a.shape.length = 2) :
+    ∃ r c, a.shape = [r, c] ∧ a.data.length = r * c ∧ 2 ≤ r ∧ 2 ≤ c := by
+  obtain ⟨data, shape⟩ := a
+  match shape, h2 with
+  | [r, c], _ =>
+    refine ⟨r, c, rfl, ?_, hv r (by simp), hv c (by simp)⟩
+    simpa [size] using hl
+
+/-! ### swapping the two populations -/
+
+theorem sr_sumList_swap (a : Arr α) (r c : Nat) (hs : a.shape = [r, c]) (hl : a.data.length = r * c) :
+    sumList (swapPops a).data = sumList a.data := by
+  rw [sumList_eq_sum, sumList_eq_sum, sr_sum_eq_fsum, sr_sum_eq_fsum]
+  exact sr_fsum_swap a r c hs hl _ _ (fun _ _ _ _ => rfl)
+
+theorem sr_statF2_swap (a : Arr α) (hl : a.data.length = size a.shape) (hv : ∀ v ∈ a.shape, 2 ≤ v)
+    (h2 : a.shape.length = 2) : statF2 (normalized (swapPops a)) = statF2 (normalized a) := by
+  obtain ⟨r, c, hs, hl', hr, hc⟩ := sr_two a hl hv h2
+  unfold statF2
+  rw [sr_freqSum_normalized, sr_freqSum_normalized, sr_sumList_swap a r c hs hl', sr_freqSum_eq, sr_freqSum_eq,
+    sr_swap_shape a r c hs, hs]
+  congr 1
+  apply sr_fsum_swap a r c hs hl'
+  intro i j hi hj
+  have h1 := sr_freqs2_nth (α := α) c r j i (by omega) hi
+  have h2 := sr_freqs2_nth (α := α) r c i j (by omega) hj
+  simp only [h1.1, h1.2, h2.1, h2.2]
+  ring
+
+theorem sr_fstParts_swap (a : Arr α) (hl : a.data.length = size a.shape) (hv : ∀ v ∈ a.shape, 2 ≤ v)
+    (h2 : a.shape.length = 2) : fstParts (swapPops a) = fstParts a := by
+  obtain ⟨r, c, hs, hl', hr, hc⟩ := sr_two a hl hv h2
+  rw [sr_fstParts_eq, sr_fstParts_eq, sr_swap_shape a r c hs, hs]
+  congr 1
+  · apply sr_isum_swap a r c hs hl' hr hc
+    intro i j hi hj
+    have h1 := sr_freqs2_nth (α := α) c r j i (by omega) hi
+    have h2 := sr_freqs2_nth (α := α) r c i j (by omega) hj
+    simp only [sr_fstNum, h1.1, h1.2, h2.1, h2.2, List.getD_cons_zero, List.getD_cons_succ]
+    ring
+  · apply sr_isum_swap a r c hs hl' hr hc
+    intro i j hi hj
+    have h1 := sr_freqs2_nth (α := α) c r j i (by omega) hi
+    have h2 := sr_freqs2_nth (α := α) r c i j (by omega) hj
+    simp only [sr_fstDen, h1.1, h1.2, h2.1, h2.2]
+    ring
+
+theorem sr_statFst_swap (a : Arr α) (hl : a.data.length = size a.shape) (hv : ∀ v ∈ a.shape, 2 ≤ v)
+    (h2 : a.shape.length = 2) : statFst (normalized (swapPops a)) = statFst (normalized a) := by
+  obtain ⟨r, c, hs, hl', hr, hc⟩ := sr_two a hl hv h2
+  unfold statFst
+  rw [sr_fstParts_normalized, sr_fstParts_normalized, sr_sumList_swap a r c hs hl', sr_fstParts_swap a hl hv h2]
+
+end
 
 end Sfs
